@@ -15,6 +15,8 @@ use std::sync::Arc;
 pub enum BeginOut {
     Success,
     Abort(u8),
+    /// the terminal first reports a status information carrying a receipt number, then aborts
+    AbortAfterReceipt(u8),
     NoReceipt,
     NoStatus,
 }
@@ -123,13 +125,18 @@ pub fn build(cfg: &ClientCfg, steps: &[Step], cleanup_for: &dyn Fn(usize) -> Cle
                 if model.open.len() == model.max || model.open.contains_key(t) {
                     Expect::Refused(ErrClass::ActiveTransaction)
                 } else {
+                    let mut pre = vec![];
                     let result = match out {
                         BeginOut::Success => ExResult::Normal,
                         BeginOut::Abort(c) => ExResult::Abort(*c),
+                        BeginOut::AbortAfterReceipt(c) => {
+                            pre = vec![Pre::Intermediate { status: 0x0e, timeout: 0 }, Pre::ReceiptStatus(9000 + i as u64)];
+                            ExResult::Abort(*c)
+                        }
                         BeginOut::NoReceipt => ExResult::NoReceipt,
                         BeginOut::NoStatus => ExResult::NoStatus,
                     };
-                    sc.plan.push(call, Cmd::Reservation, ExPlan { result, ..ExPlan::default() });
+                    sc.plan.push(call, Cmd::Reservation, ExPlan { pre, result, ..ExPlan::default() });
                     if *out == BeginOut::Success {
                         model.open.insert(t.clone(), next_receipt);
                         next_receipt = if next_receipt >= 9999 { 1 } else { next_receipt + 1 };
@@ -390,7 +397,7 @@ fn enumerate(depth: usize, max_tx: usize, out: &mut Vec<Vec<Step>>) {
                 rec(cur, open, used2, depth, max_tx, out);
                 cur.pop();
             } else {
-                for o in [BeginOut::Success, BeginOut::Abort(0x6f), BeginOut::NoReceipt] {
+                for o in [BeginOut::Success, BeginOut::Abort(0x6f), BeginOut::NoReceipt, BeginOut::AbortAfterReceipt(0x64)] {
                     cur.push(Step::Begin(t.clone(), o.clone()));
                     if o == BeginOut::Success {
                         open.push(t.clone());
@@ -435,6 +442,7 @@ fn random_walk(rng: &mut Rng, len: usize) -> Vec<Step> {
                     t,
                     match rng.below(6) {
                         0 => BeginOut::Abort(rng.byte()),
+                        1 if rng.chance(1, 2) => BeginOut::AbortAfterReceipt(rng.byte()),
                         1 => BeginOut::NoReceipt,
                         2 => BeginOut::NoStatus,
                         _ => BeginOut::Success,
@@ -469,7 +477,7 @@ pub fn run(ctx: &Ctx, id: &str) -> i32 {
     };
     let n_walks = ctx.by(4_000usize, 200_000usize);
     report.rule = if id == "C07" {
-        format!("call histories of begin/commit/cancel over tokens {{a,b,c}} (tokens introduced in this order: symmetry), model-guided bounded-exhaustive: every history of exactly {depth} calls with every terminal outcome (reservation: success / abort / missing receipt; reversal: completed / abort) branched where the model accepts the call, x transactions_max_num 0..3; then a probe suffix cancel(a), cancel(b), cancel(c); plus {n_walks} random walks to depth 40 with empty / 99-byte / non-ASCII tokens and max 0..4. Oracle: sequential client model (D.3) for the result class, 'refused => no request and no connection', 'commit/cancel carry the receipt number the terminal issued for that token', and the hook snapshot of the client's map after every call. Non-trivial = history with at least one accepted call; distinct by hash of (history, max).")
+        format!("call histories of begin/commit/cancel over tokens {{a,b,c}} (tokens introduced in this order: symmetry), model-guided bounded-exhaustive: every history of exactly {depth} calls with every terminal outcome (reservation: success / abort / missing receipt / abort after a status information that already carried a receipt number; reversal: completed / abort) branched where the model accepts the call, x transactions_max_num 0..3; then a probe suffix cancel(a), cancel(b), cancel(c); plus {n_walks} random walks to depth 40 with empty / 99-byte / non-ASCII tokens and max 0..4. Oracle: sequential client model (D.3) for the result class, 'refused => no request and no connection', 'commit/cancel carry the receipt number the terminal issued for that token', and the hook snapshot of the client's map after every call. Non-trivial = history with at least one accepted call; distinct by hash of (history, max).")
     } else {
         format!("the C07 histories (exactly {depth} calls, max 1..3) and {n_walks} random walks, each run under a clean-up behaviour chosen per scenario: pending query reports {{no receipt field, FFFF, a dangling receipt}}, reversal of the dangling receipt {{completes, aborts}}, end-of-day {{completion, abort A0, every other abort code in turn (quick: A0 + 8 others per seed)}}, with intermediate/print packets inside the end-of-day exchange. Oracle (temporal checker over the request log per call): a commit/cancel the terminal completed that leaves no token open is followed by exactly PendingQuery -> PreAuthReversal(d) iff d reported -> EndOfDay(password); result Ok on completion/A0, error otherwise; with tokens remaining no PendingQuery/EndOfDay. Non-trivial = history containing at least one completed commit/cancel; distinct by hash of (history, max, clean-up behaviour).")
     };
